@@ -13,13 +13,304 @@ import (
 const dsP = "emitter/doublesign."
 
 func init() {
-	register("C21", "other", "T8 DecisionTable (field coverage), T19 SaturatingArith, T4 GuardedBy (normalised comparisons)",
-		"Decides the decision-table shape of the double-sign guard: no peers and unfinished P2P sync lead only to error returns; each of the five timestamps (last connected, P2P synced, became validator, external self-event created / detected) has a test since(t) < threshold that feeds the remaining time threshold - since(t) of the same timestamp, with a non-nil error, into the maximum keeper; the keeper replaces its value only by a larger wait and the function returns the keeper's wait and error; the remaining-time subtraction is saturating (since(t) is the saturating Time.Sub and can be the most negative duration for a far-future timestamp, so the plain difference wraps negative and emission would be permitted). Parallel-instance detection: created-before-startup leads only to false, otherwise the result is since(created) < threshold. Concrete time arithmetic beyond wrap-around is not decided.",
+	register("C21", "other", "T8 DecisionTable (field coverage), T19 SaturatingArith, T4 GuardedBy (normalised comparisons), inlined view of helpers (parameter binding)",
+		"Decides the decision-table shape of the double-sign guard: no peers and unfinished P2P sync lead only to error returns; each of the five timestamps (last connected, P2P synced, became validator, external self-event created / detected) has a test since(t) < threshold that feeds the remaining time threshold - since(t) of the same timestamp, with a non-nil error, into the maximum keeper, and no emission is permitted on a path that neither recorded that wait nor saw the test fail. The test, the wait computation and the keeper update may live in SyncedToEmit itself or in helper functions / local closures it calls: the rule works on the inlined view (parameters and receivers of a helper are bound to the caller's argument expressions, single-definition locals are looked through), so the same facts are decided whether the five tests are written out or share one helper. The keeper replaces its value only by a larger wait and the function returns the keeper's wait and error; the remaining-time subtraction is saturating (since(t) is the saturating Time.Sub and can be the most negative duration for a far-future timestamp, so the plain difference wraps negative and emission would be permitted). Parallel-instance detection: created-before-startup leads only to false, otherwise the result is since(created) < threshold. Concrete time arithmetic beyond wrap-around is not decided.",
 		[]string{"time.Time.Sub saturates at the minimum/maximum Duration (time package contract)", "threshold is positive"},
 		runC21)
 }
 
 var c21Stamps = []string{"LastConnected", "P2PSynced", "BecameValidator", "ExternalSelfEventCreated", "ExternalSelfEventDetected"}
+
+// ---------------------------------------------------------------------------
+// inlined view of SyncedToEmit
+//
+// c21Frame is one activation in the inlined view: the function (declared helper or local closure), the
+// call site in the caller's frame that enters it, and the binding of its parameters / receiver to the
+// caller's argument expressions. Expressions are always interpreted relative to a frame.
+
+type c21Frame struct {
+	F    *core.FuncInfo
+	Up   *c21Frame
+	Site *core.CallSite
+	Bind map[*types.Var]ast.Expr
+}
+
+// c21Apply is one call of the keeper's apply in the inlined view.
+type c21Apply struct {
+	Fr *c21Frame
+	CS *core.CallSite
+}
+
+// chain lists the frames from the root down to the frame of the apply call, together with the point
+// that leads towards the apply in each of them (the helper call site, or the apply call itself).
+func (a c21Apply) chain() (frames []*c21Frame, pts []core.Point) {
+	for fr := a.Fr; fr != nil; fr = fr.Up {
+		frames = append([]*c21Frame{fr}, frames...)
+	}
+	for i := range frames {
+		if i+1 < len(frames) {
+			pts = append(pts, frames[i+1].Site.Pt)
+		} else {
+			pts = append(pts, a.CS.Pt)
+		}
+	}
+	return
+}
+
+// c21Callee returns the module function a call site enters: a declared function/method, or a function
+// literal held by a single-definition local (`check := func(...) {...}; check(x)`).
+func c21Callee(fr *c21Frame, cs *core.CallSite) *core.FuncInfo {
+	switch o := cs.Callee.(type) {
+	case *types.Func:
+		return fr.F.P.FuncOf(o)
+	case *types.Var:
+		if d := singleDef(fr.F, o); d != nil {
+			if lit, ok := ast.Unparen(d).(*ast.FuncLit); ok {
+				return fr.F.P.LitInfo(lit)
+			}
+		}
+	}
+	return nil
+}
+
+// c21Enter builds the frame of callee g entered at cs.
+func c21Enter(fr *c21Frame, cs *core.CallSite, g *core.FuncInfo) *c21Frame {
+	sub := &c21Frame{F: g, Up: fr, Site: cs, Bind: map[*types.Var]ast.Expr{}}
+	variadic := false
+	if n := len(g.Type.Params.List); n > 0 {
+		_, variadic = g.Type.Params.List[n-1].Type.(*ast.Ellipsis)
+	}
+	nParams := 0
+	for _, fl := range g.Type.Params.List {
+		if len(fl.Names) == 0 {
+			nParams++
+		} else {
+			nParams += len(fl.Names)
+		}
+	}
+	for i, a := range cs.Call.Args {
+		if variadic && i >= nParams-1 {
+			break
+		}
+		if p := g.Param(i); p != nil {
+			sub.Bind[p] = a
+		}
+	}
+	if r := g.Recv(); r != nil {
+		if x := cs.Recv(); x != nil {
+			sub.Bind[r] = x
+		}
+	}
+	return sub
+}
+
+// c21ApplySites enumerates the apply calls reachable from the frame through helper calls (bounded depth,
+// no recursion, `go` statements excluded).
+func c21ApplySites(fr *c21Frame, depth int, out *[]c21Apply) {
+	for _, cs := range fr.F.Calls() {
+		if cs.InGo || cs.IsConv {
+			continue
+		}
+		if cs.Name == dsP+"maxWaitError.apply" {
+			*out = append(*out, c21Apply{fr, cs})
+			continue
+		}
+		if depth <= 0 {
+			continue
+		}
+		g := c21Callee(fr, cs)
+		if g == nil {
+			continue
+		}
+		rec := false
+		for up := fr; up != nil; up = up.Up {
+			if up.F == g {
+				rec = true
+			}
+		}
+		if rec {
+			continue
+		}
+		c21ApplySites(c21Enter(fr, cs, g), depth-1, out)
+	}
+}
+
+// c21Resolve follows an expression to what it denotes in the inlined view: parentheses, & and * are
+// dropped (a helper may take the status by pointer), a parameter or receiver that is never reassigned
+// stands for the caller's argument, a single-definition local for its defining expression.
+func c21Resolve(fr *c21Frame, e ast.Expr) (*c21Frame, ast.Expr) {
+	for i := 0; i < 24 && e != nil; i++ {
+		e = ast.Unparen(e)
+		switch x := e.(type) {
+		case *ast.UnaryExpr:
+			if x.Op == token.AND {
+				e = x.X
+				continue
+			}
+			return fr, e
+		case *ast.StarExpr:
+			e = x.X
+			continue
+		}
+		id, ok := e.(*ast.Ident)
+		if !ok {
+			return fr, e
+		}
+		v, _ := fr.F.Info().ObjectOf(id).(*types.Var)
+		if v == nil {
+			return fr, e
+		}
+		if b, bound := fr.Bind[v]; bound && fr.Up != nil {
+			if n, addr := c19AssignCount(fr.F, v); n != 0 || addr {
+				return fr, e
+			}
+			fr, e = fr.Up, b
+			continue
+		}
+		r := resolveLocal(fr.F, e)
+		if r == e {
+			// a variable captured by a closure frame belongs to an enclosing frame
+			return fr, e
+		}
+		e = r
+	}
+	return fr, e
+}
+
+// c21View holds the roles of SyncedToEmit's parameters.
+type c21View struct {
+	status, threshold *types.Var
+}
+
+func (v *c21View) isVar(fr *c21Frame, e ast.Expr, want *types.Var) bool {
+	fr2, r := c21Resolve(fr, e)
+	id, ok := r.(*ast.Ident)
+	return ok && want != nil && fr2.F.Info().ObjectOf(id) == types.Object(want)
+}
+
+// statusField: e denotes <status>.<field> of the SyncStatus parameter; returns the bare field name.
+func (v *c21View) statusField(fr *c21Frame, e ast.Expr) string {
+	fr2, r := c21Resolve(fr, e)
+	sel, ok := r.(*ast.SelectorExpr)
+	if !ok {
+		return ""
+	}
+	s, ok := fr2.F.Info().Selections[sel]
+	if !ok {
+		return ""
+	}
+	fv, ok := s.Obj().(*types.Var)
+	if !ok || !fv.IsField() {
+		return ""
+	}
+	fn := fr2.F.P.FieldName(fv)
+	const pre = dsP + "SyncStatus."
+	if len(fn) <= len(pre) || fn[:len(pre)] != pre || !v.isVar(fr2, sel.X, v.status) {
+		return ""
+	}
+	return fn[len(pre):]
+}
+
+// stampOf: e denotes one of the five timestamps of the status.
+func (v *c21View) stampOf(fr *c21Frame, e ast.Expr) string {
+	fn := v.statusField(fr, e)
+	for _, st := range c21Stamps {
+		if fn == st {
+			return fn
+		}
+	}
+	return ""
+}
+
+// sinceOf: e denotes status.Since(status.X) (or its body status.Now.Sub(status.X)); returns X.
+func (v *c21View) sinceOf(fr *c21Frame, e ast.Expr) string {
+	fr2, r := c21Resolve(fr, e)
+	call, ok := r.(*ast.CallExpr)
+	if !ok || len(call.Args) != 1 {
+		return ""
+	}
+	sel, ok := ast.Unparen(call.Fun).(*ast.SelectorExpr)
+	if !ok {
+		return ""
+	}
+	switch calleeName(fr2.F, call) {
+	case dsP + "SyncStatus.Since":
+		if !v.isVar(fr2, sel.X, v.status) {
+			return ""
+		}
+	case "time.Time.Sub":
+		if v.statusField(fr2, sel.X) != "Now" {
+			return ""
+		}
+	default:
+		return ""
+	}
+	return v.stampOf(fr2, call.Args[0])
+}
+
+func (v *c21View) namer(fr *c21Frame) core.AtomNamer {
+	return func(e ast.Expr) string {
+		if s := v.sinceOf(fr, e); s != "" {
+			return "since." + s
+		}
+		if v.isVar(fr, e, v.threshold) {
+			return "threshold"
+		}
+		return ""
+	}
+}
+
+// recent / notRecent: fact predicates since(stamp) < threshold and since(stamp) >= threshold in a frame.
+func (v *c21View) recent(fr *c21Frame, stamp string) func(core.Fact) bool {
+	return c19LinMatch(fr.F, v.namer(fr), "since."+stamp+" - threshold + 1 <= 0")
+}
+
+func (v *c21View) notRecent(fr *c21Frame, stamp string) func(core.Fact) bool {
+	return c19LinMatch(fr.F, v.namer(fr), "threshold - since."+stamp+" <= 0")
+}
+
+// stampsIn lists the timestamps an expression talks about (through Since(), or the field itself handed
+// to a helper), in the inlined view.
+func (v *c21View) stampsIn(fr *c21Frame, e ast.Expr) []string {
+	fr2, r := c21Resolve(fr, e)
+	seen := map[string]bool{}
+	var walk func(fr *c21Frame, n ast.Node, depth int)
+	walk = func(fr *c21Frame, n ast.Node, depth int) {
+		ast.Inspect(n, func(m ast.Node) bool {
+			if _, isLit := m.(*ast.FuncLit); isLit {
+				return false
+			}
+			x, ok := m.(ast.Expr)
+			if !ok {
+				return true
+			}
+			if s := v.sinceOf(fr, x); s != "" {
+				seen[s] = true
+				return false
+			}
+			if s := v.stampOf(fr, x); s != "" {
+				seen[s] = true
+				return false
+			}
+			// an identifier standing for a larger expression (local / parameter): look inside once
+			if id, isId := x.(*ast.Ident); isId && depth < 4 {
+				if fr3, r3 := c21Resolve(fr, id); r3 != ast.Expr(id) {
+					walk(fr3, r3, depth+1)
+				}
+			}
+			return true
+		})
+	}
+	walk(fr2, r, 0)
+	var out []string
+	for s := range seen {
+		out = append(out, s)
+	}
+	sort.Strings(out)
+	return out
+}
+
+// ---------------------------------------------------------------------------
 
 func runC21(c *core.Ctx) {
 	c.Clause("C21.table", func() {
@@ -35,15 +326,6 @@ func runC21(c *core.Ctx) {
 			return ok && v.Pkg() != nil && v.Parent() == v.Pkg().Scope()
 		}
 		// no peers => error
-		e1 := edgesWithFact(f, func(ft core.Fact) bool {
-			cm, ok := core.NormCmp(ft)
-			if !ok || cm.R == nil || cm.Op != token.EQL {
-				return false
-			}
-			root, path := fieldPath(f, cm.L)
-			return len(path) == 1 && path[0] == dsP+"SyncStatus.PeersNum" && varOf(f, root) == status && core.IsConstInt(f.Info(), cm.R, 0)
-		})
-		_ = e1
 		// the final return hands back the keeper's error, which is nil only if no wait was recorded: for this
 		// row "rejecting" means an early error return; the keeper return counts as accepting
 		ok1, why1 := rejectedWhen(f, func(ft core.Fact) bool {
@@ -78,81 +360,102 @@ func runC21(c *core.Ctx) {
 		}
 		c.Check(ok2, "P2P sync unfinished => refused", "T8 DecisionTable", f.Pos(), "P2PSynced.IsZero() leads only to error returns", "emission can be permitted before P2P sync finished")
 
-		// the per-timestamp tests
-		applies := f.CallsTo(dsP + "maxWaitError.apply")
+		// the per-timestamp tests, on the inlined view (the test/apply pair may sit in a helper)
+		view := &c21View{status: status, threshold: threshold}
+		root := &c21Frame{F: f}
+		var applies []c21Apply
+		c21ApplySites(root, 3, &applies)
 		c.ExpectAtLeast("apply sites in SyncedToEmit", len(applies), 5)
-		stampOf := func(g *core.FuncInfo, e ast.Expr) string {
-			// s.Since(s.X) -> X
-			call := isCallTo(g, e, dsP+"SyncStatus.Since")
-			if call == nil || len(call.Args) != 1 {
-				return ""
-			}
-			_, path := fieldPath(g, call.Args[0])
-			if len(path) == 1 {
-				return short(path[0])
-			}
-			return ""
-		}
-		namer := func(e ast.Expr) string {
-			if s := stampOf(f, e); s != "" {
-				return "since." + s
-			}
-			if varOf(f, e) == threshold {
-				return "threshold"
-			}
-			return ""
+		accepting := func(pt core.Point) bool {
+			r, ok := pt.Node().(*ast.ReturnStmt)
+			return ok && !errRet(r)
 		}
 		covered := map[string]bool{}
+		var keeper *types.Var
+		keeperOK := true
 		for _, ap := range applies {
-			c.Need(len(ap.Call.Args) == 2, "apply(wait, err)")
+			c.Need(len(ap.CS.Call.Args) == 2, "apply(wait, err)")
+			frames, pts := ap.chain()
+			leaf := frames[len(frames)-1]
 			// which stamp does the wait argument talk about?
-			stamp := ""
-			ast.Inspect(ap.Call.Args[0], func(n ast.Node) bool {
-				if e, ok := n.(ast.Expr); ok {
-					if s := stampOf(f, e); s != "" {
-						stamp = s
-					}
-					// a helper that receives the timestamp field itself
-					if sel, ok := e.(*ast.SelectorExpr); ok && stamp == "" {
-						if _, path := fieldPath(f, sel); len(path) == 1 {
-							for _, st := range c21Stamps {
-								if path[0] == dsP+"SyncStatus."+st {
-									stamp = short(path[0])
-								}
-							}
-						}
-					}
-				}
-				return stamp == ""
-			})
-			if stamp == "" {
-				c.Undecided("apply site without a recognisable timestamp", "T8 DecisionTable", ap.Pos(), "cannot tell which timestamp this wait is computed from")
+			stamps := view.stampsIn(ap.Fr, ap.CS.Call.Args[0])
+			if len(stamps) != 1 {
+				c.Undecided("apply site without a recognisable timestamp", "T8 DecisionTable", ap.CS.Pos(), "cannot tell which single timestamp this wait is computed from (found: "+joinStr(stamps)+")")
 				continue
 			}
-			want := core.ParseLinCmp("since." + stamp + " - threshold + 1 <= 0")
-			ok, wit := f.GuardedBy(ap.Pt, func(ft core.Fact) bool {
-				lc, k := core.NormLinCmp(f.Info(), ft, namer)
-				return k && lc.Equal(want)
-			})
-			c.Check(ok, short(stamp)+"|wait recorded exactly when since < threshold", "T4 GuardedBy", ap.Pos(), "apply is reached only on the since("+short(stamp)+") < threshold edge of the same timestamp", "the wait for "+short(stamp)+" is recorded under a different test: "+f.DescribePath(wit))
-			// and always on that edge: the test's true edge always reaches this apply
-			for _, e := range edgesWithFact(f, func(ft core.Fact) bool {
-				lc, k := core.NormLinCmp(f.Info(), ft, namer)
-				return k && lc.Equal(want)
-			}) {
-				_, miss := core.PathQuery{F: f, From: blockEntry(e.B.Succs[e.Succ]), Avoid: core.PointSet(ap.Pt), TargetExit: true}.Find()
-				c.Check(!miss, short(stamp)+"|too-recent timestamp always records a wait", "T3 PostDominates", ap.Pos(), "the since < threshold edge always reaches apply", "a too-recent "+short(stamp)+" can be ignored")
+			stamp := stamps[0]
+			// only when: in some frame of the chain the way to the apply is guarded by since(stamp) < threshold
+			jg := -1
+			var wit []core.Point
+			for j := len(frames) - 1; j >= 0; j-- {
+				ok, w := frames[j].F.GuardedBy(pts[j], view.recent(frames[j], stamp))
+				if ok {
+					jg = j
+					break
+				}
+				if j == len(frames)-1 {
+					wit = w
+				}
+			}
+			c.Check(jg >= 0, stamp+"|wait recorded exactly when since < threshold", "T4 GuardedBy", ap.CS.Pos(), "apply is reached only on the since("+stamp+") < threshold edge of the same timestamp", "the wait for "+stamp+" is recorded under a different test: "+leaf.F.DescribePath(wit))
+			if jg >= 0 {
+				g := frames[jg].F
+				// and always on that edge: the test's true edge always reaches this apply
+				okAlways := true
+				for _, e := range edgesWithFact(g, view.recent(frames[jg], stamp)) {
+					if _, miss := (core.PathQuery{F: g, From: blockEntry(e.B.Succs[e.Succ]), Avoid: core.PointSet(pts[jg]), TargetExit: true}).Find(); miss {
+						okAlways = false
+					}
+				}
+				for j := jg + 1; j < len(frames); j++ {
+					if _, miss := (core.PathQuery{F: frames[j].F, From: frames[j].F.Entry(), Avoid: core.PointSet(pts[j]), TargetExit: true}).Find(); miss {
+						okAlways = false
+					}
+				}
+				c.Check(okAlways, stamp+"|too-recent timestamp always records a wait", "T3 PostDominates", ap.CS.Pos(), "the since < threshold edge always reaches apply", "a too-recent "+stamp+" can be ignored")
+				// and the test is made before emission is permitted: no accepting path skips both the apply and the
+				// since >= threshold edge
+				okTested := true
+				var witT []core.Point
+				var witF *core.FuncInfo
+				for j := 0; j <= jg; j++ {
+					q := core.PathQuery{F: frames[j].F, From: frames[j].F.Entry(), Avoid: core.PointSet(pts[j])}
+					if j == jg {
+						q.AvoidEdge = c19Edges(frames[j].F, view.notRecent(frames[j], stamp))
+					}
+					if j == 0 {
+						q.Target = accepting
+					} else {
+						q.TargetExit = true
+					}
+					if path, found := q.Find(); found {
+						okTested, witT, witF = false, path, frames[j].F
+					}
+				}
+				detail := ""
+				if witF != nil {
+					detail = witF.DescribePath(witT)
+				}
+				c.Check(okTested, stamp+"|tested before emission is permitted", "T8 DecisionTable", ap.CS.Pos(), "every path to the permitting return records the wait for "+stamp+" or takes the since("+stamp+") >= threshold edge", "SyncedToEmit can return its result (permit emission, or report a wait that is not the longest) on a path that never compared since("+stamp+") with the threshold: "+detail)
 			}
 			// error argument: a package-level error variable (non-nil)
-			ev, _ := f.ObjOf(ap.Call.Args[1]).(*types.Var)
+			efr, ee := c21Resolve(ap.Fr, ap.CS.Call.Args[1])
+			ev, _ := efr.F.ObjOf(ee).(*types.Var)
 			okE := ev != nil && ev.Pkg() != nil && ev.Parent() == ev.Pkg().Scope()
-			c.Check(okE, short(stamp)+"|refusal carries an error", "T8 DecisionTable", ap.Pos(), "apply receives a package-level error value", "the wait is recorded without an error (emission would be permitted)")
-			checkSaturating(c, f, ap, stamp, threshold)
+			c.Check(okE, stamp+"|refusal carries an error", "T8 DecisionTable", ap.CS.Pos(), "apply receives a package-level error value", "the wait is recorded without an error (emission would be permitted)")
+			checkSaturating(c, ap, stamp)
 			covered[stamp] = true
+			// the keeper all waits go into
+			kfr, ke := c21Resolve(ap.Fr, ap.CS.Recv())
+			kv := varOf(kfr.F, ke)
+			if kv == nil || !c19Within(f.Body, kv.Pos()) || (keeper != nil && keeper != kv) {
+				keeperOK = false
+			}
+			keeper = kv
 		}
 		var missing []string
 		for _, s := range c21Stamps {
-			if !covered["SyncStatus."+s] {
+			if !covered[s] {
 				missing = append(missing, s)
 			}
 		}
@@ -160,13 +463,7 @@ func runC21(c *core.Ctx) {
 		c.Check(len(missing) == 0, "all five timestamps are tested", "T8 field coverage", f.Pos(), "LastConnected, P2PSynced, BecameValidator, ExternalSelfEventCreated, ExternalSelfEventDetected each have a test", "timestamps without a since < threshold test: "+joinStr(missing))
 
 		// result: the keeper's fields
-		var keeper *types.Var
-		for _, ap := range applies {
-			if v := varOf(f, ap.Recv()); v != nil {
-				keeper = v
-			}
-		}
-		okRet := keeper != nil
+		okRet := keeper != nil && keeperOK
 		nFinal := 0
 		for _, rp := range f.ReturnPoints() {
 			r := rp.Node().(*ast.ReturnStmt)
@@ -223,30 +520,57 @@ func runC21(c *core.Ctx) {
 	c.Clause("C21.parallel", func() {
 		f := c.Fn(dsP + "DetectParallelInstance")
 		threshold := f.Param(1)
-		// created before startup => false
-		edges := edgesWithFact(f, func(ft core.Fact) bool {
-			if !ft.Truth {
+		// created before startup => false. The test is Created.Before(Startup) or, equivalently,
+		// Startup.After(Created); it may be a branch condition or a conjunct of the returned expression.
+		isField := func(e ast.Expr, name string) bool {
+			_, p := fieldPath(f, e)
+			return len(p) == 1 && p[0] == dsP+"SyncStatus."+name
+		}
+		// notBefore: the fact says "created is not before startup"
+		notBefore := func(ft core.Fact) bool {
+			if ft.Truth {
 				return false
 			}
-			call := isCallTo(f, ft.Expr, "time.Time.Before")
-			if call == nil {
+			call := isCallTo(f, ft.Expr, "time.Time.Before", "time.Time.After")
+			if call == nil || len(call.Args) != 1 {
 				return false
 			}
-			sel, ok := call.Fun.(*ast.SelectorExpr)
+			sel, ok := ast.Unparen(call.Fun).(*ast.SelectorExpr)
 			if !ok {
 				return false
 			}
-			_, p1 := fieldPath(f, sel.X)
-			_, p2 := fieldPath(f, call.Args[0])
-			return len(p1) == 1 && p1[0] == dsP+"SyncStatus.ExternalSelfEventCreated" && len(p2) == 1 && p2[0] == dsP+"SyncStatus.Startup"
-		})
-		ok := len(edges) >= 1
-		for _, e := range edges {
-			if o, _ := edgeLeadsOnlyTo(f, e.B, e.Succ, func(r *ast.ReturnStmt) bool { return len(r.Results) == 1 && isIdentNamed(r.Results[0], "false") }); !o {
+			if sel.Sel.Name == "Before" {
+				return isField(sel.X, "ExternalSelfEventCreated") && isField(call.Args[0], "Startup")
+			}
+			return isField(sel.X, "Startup") && isField(call.Args[0], "ExternalSelfEventCreated")
+		}
+		isConstBool := func(e ast.Expr, want bool) bool {
+			cv, ok := core.ConstVal(f.Info(), e)
+			return ok && cv.Kind() == constant.Bool && constant.BoolVal(cv) == want
+		}
+		// every return that can yield true is reached only over a not-before edge, or has not-before as a conjunct
+		ok, nMaybeTrue := true, 0
+		for _, rp := range f.ReturnPoints() {
+			r := rp.Node().(*ast.ReturnStmt)
+			if len(r.Results) != 1 {
+				ok = false
+				continue
+			}
+			if isConstBool(r.Results[0], false) {
+				continue
+			}
+			nMaybeTrue++
+			protected, _ := f.GuardedBy(rp, notBefore)
+			for _, ft := range core.Decompose(resolveLocal(f, r.Results[0]), true) {
+				if notBefore(ft) {
+					protected = true
+				}
+			}
+			if !protected {
 				ok = false
 			}
 		}
-		c.Check(ok, "event created before startup is not a parallel instance", "T8 DecisionTable", f.Pos(), "Created.Before(Startup) leads only to false", "a self-event older than startup can be reported as a parallel instance")
+		c.Check(ok && nMaybeTrue >= 1, "event created before startup is not a parallel instance", "T8 DecisionTable", f.Pos(), "a result other than false is produced only when Created.Before(Startup) is false", "a self-event older than startup can be reported as a parallel instance")
 		// otherwise: since(created) < threshold
 		namer := func(e ast.Expr) string {
 			if call := isCallTo(f, e, dsP+"SyncStatus.Since"); call != nil {
@@ -264,9 +588,17 @@ func runC21(c *core.Ctx) {
 		okR := false
 		for _, rp := range f.ReturnPoints() {
 			r := rp.Node().(*ast.ReturnStmt)
-			if len(r.Results) == 1 && !isIdentNamed(r.Results[0], "false") && !isIdentNamed(r.Results[0], "true") {
-				lc, k := core.NormLinCmp(f.Info(), core.Fact{Expr: r.Results[0], Truth: true}, namer)
-				if k && lc.Equal(want) {
+			if len(r.Results) == 1 && !isConstBool(r.Results[0], false) && !isConstBool(r.Results[0], true) {
+				// the returned expression is the comparison, possibly conjoined with the not-before test
+				nRecent, nOther := 0, 0
+				for _, ft := range core.Decompose(resolveLocal(f, r.Results[0]), true) {
+					if lc, k := core.NormLinCmp(f.Info(), core.Fact{Expr: resolveLocal(f, ft.Expr), Truth: ft.Truth}, namer); k && lc.Equal(want) {
+						nRecent++
+					} else if !notBefore(ft) {
+						nOther++
+					}
+				}
+				if nRecent >= 1 && nOther == 0 {
 					okR = true
 				}
 			}
@@ -297,9 +629,10 @@ func joinStr(xs []string) string {
 
 // checkSaturating is T19 for one apply site: the wait argument must not be a plain difference
 // threshold - since(t); it has to go through a wrap check that substitutes the maximum duration.
-func checkSaturating(c *core.Ctx, f *core.FuncInfo, ap *core.CallSite, stamp string, threshold *types.Var) {
-	arg := ast.Unparen(ap.Call.Args[0])
-	construct := short(stamp) + "|remaining time saturates"
+func checkSaturating(c *core.Ctx, ap c21Apply, stamp string) {
+	fr, arg := c21Resolve(ap.Fr, ap.CS.Call.Args[0])
+	f := fr.F
+	construct := stamp + "|remaining time saturates"
 	isMaxDur := func(g *core.FuncInfo, e ast.Expr) bool {
 		v, ok := core.ConstVal(g.Info(), e)
 		if !ok {
@@ -336,7 +669,7 @@ func checkSaturating(c *core.Ctx, f *core.FuncInfo, ap *core.CallSite, stamp str
 	switch x := arg.(type) {
 	case *ast.BinaryExpr:
 		if x.Op == token.SUB {
-			c.Fail(construct, "T19 SaturatingArith", ap.Pos(), "the wait is the plain difference threshold - since("+short(stamp)+"): since() saturates at the most negative duration for a far-future timestamp, the difference wraps to a negative value, the maximum keeper ignores it and emission is permitted although the timestamp is not threshold in the past")
+			c.Fail(construct, "T19 SaturatingArith", ap.CS.Pos(), "the wait is the plain difference threshold - since("+stamp+"): since() saturates at the most negative duration for a far-future timestamp, the difference wraps to a negative value, the maximum keeper ignores it and emission is permitted although the timestamp is not threshold in the past")
 			return
 		}
 	case *ast.CallExpr:
@@ -345,7 +678,7 @@ func checkSaturating(c *core.Ctx, f *core.FuncInfo, ap *core.CallSite, stamp str
 				if hasWrapCheck(g) {
 					c.Pass(construct, "T19 SaturatingArith", "the wait is computed by "+short(g.Name)+", which substitutes the maximum duration when the subtraction wraps")
 				} else {
-					c.Fail(construct, "T19 SaturatingArith", ap.Pos(), short(g.Name)+" computes the wait without a wrap check that substitutes the maximum duration")
+					c.Fail(construct, "T19 SaturatingArith", ap.CS.Pos(), short(g.Name)+" computes the wait without a wrap check that substitutes the maximum duration")
 				}
 				return
 			}
@@ -355,8 +688,8 @@ func checkSaturating(c *core.Ctx, f *core.FuncInfo, ap *core.CallSite, stamp str
 			c.Pass(construct, "T19 SaturatingArith", "the wait variable is replaced by the maximum duration under a wrap check")
 			return
 		}
-		c.Fail(construct, "T19 SaturatingArith", ap.Pos(), "the wait variable is never replaced by the maximum duration: the subtraction can wrap for a far-future timestamp")
+		c.Fail(construct, "T19 SaturatingArith", ap.CS.Pos(), "the wait variable is never replaced by the maximum duration: the subtraction can wrap for a far-future timestamp")
 		return
 	}
-	c.Undecided(construct, "T19 SaturatingArith", ap.Pos(), "the wait argument has a form the rule cannot classify: "+exprStr(arg))
+	c.Undecided(construct, "T19 SaturatingArith", ap.CS.Pos(), "the wait argument has a form the rule cannot classify: "+exprStr(arg))
 }
